@@ -153,9 +153,12 @@ def _check_start(i, start, cfg, res, listing_before, rec):
             labels = [dict(l, temperature=t) for l in labels for t in start["temps"]]
         n_runs = len(labels)
     seen = []
+    merged = {}  # a bucket may be named by several entries of the save list: the requested formats of a bucket are their union
     for entry in start["save"]:
         (name, fmts), = entry.items()
-        b = name.split(".")[1]
+        lst = merged.setdefault(name.split(".")[1], [])
+        lst.extend(f for f in fmts if f not in lst)
+    for b, fmts in merged.items():
         node = res[f"/output/{b}"] if b in res["/output"].children else None
         if not rec.check(node is not None, "bucket_without_reported_files", f"start {i}: no /output/{b}"):
             continue
